@@ -111,10 +111,11 @@ def tasks(ctx, quick):
     for (Z, A) in isos:
         for k in range(ncond):
             items.append({"id": "t%d" % len(items), "kind": "act", "iso": [Z, A], "cond": conditions(rng), "rel": (k == 0)})
-    forms = ["Co", "Co30Fe70", "H2O", "SiO2", "Au", "NaCl", "Gd2O3", "Eu", "Dy", "C12H22O11", "Co[59]", "Fe[58]2O3", "AgCl", "In", "Mn0.5Ni0.5", "U", "LiF"]
-    for i in range(20 if quick else 200):
+    forms = ["Co", "Co30Fe70", "H2O", "SiO2", "Au", "NaCl", "Gd2O3", "Eu", "Dy", "C12H22O11", "Co[59]", "Fe[58]2O3", "AgCl", "In", "Mn0.5Ni0.5", "U", "LiF",
+             "HDO", "Li[6]3Li7F10", "Co[59]Co2", "Fe[58]Fe9O4", "Cu[63]Cu", "Ag[107]AgCl2", "Eu[151]EuO3", "W[186]W"]
+    for i in range(40 if quick else 300):
         c = conditions(rng)
-        items.append({"id": "t%d" % len(items), "kind": "sample", "formula": rng.choice(forms), "cond": c})
+        items.append({"id": "t%d" % len(items), "kind": "sample", "formula": forms[i % len(forms)] if i < len(forms) else rng.choice(forms), "cond": c})
     return items
 
 
